@@ -194,6 +194,45 @@ def run(ck):
             ck.ob('C26.bound', 'C26.bound/%s#%d' % (q.split('::')[-1], i), not fails, f.loc(i),
                   '%s runs only past %s' % (f.text(i)[:60], lab), fails[0][3] if fails else None)
     ck.floor('C26.bound', 'prefix substr/erase operations on session buffers', nb, 5)
+    # positional string operations whose position is not the constant 0 throw std::out_of_range when the position exceeds the
+    # size (an uncaught exception in an event-loop callback ends the relay): each must sit past `v != npos` for the search
+    # result v it is computed from (v, or v + 1)
+    npos_ops = 0
+    for f in P.fns:
+        if not f.file.endswith('src/relay/RelayServer.cpp'):
+            continue
+        for i in f.walk():
+            c = f.nodes[i].get('callee', '') or ''
+            if not c.endswith(('basic_string<char>::substr', 'basic_string<char>::erase', 'basic_string<char>::at', 'basic_string<char>::insert',
+                               'basic_string<char>::replace', 'basic_string<char>::compare', 'basic_string_view<char>::substr')):
+                continue
+            a = [x for x in f.call_args(i) if f.nodes[x]['k'] != 'CXXDefaultArgExpr']
+            if not a or const_value(f, a[0]) == 0 or (f.nodes[f.strip(a[0])].get('t') or '').find('iterator') >= 0:
+                continue
+            npos_ops += 1
+            ck.touch(f)
+            vs = {f.nodes[j]['d'] for j in f.walk(a[0]) if f.nodes[j]['k'] == 'DeclRefExpr' and f.nodes[j].get('dk') == 'Var'}
+            consts = [const_value(f, j) for j in f.walk(a[0]) if f.nodes[j]['k'] == 'IntegerLiteral']
+            from sa.flow import all_defs as _ad26
+            searched = len(vs) == 1 and all(c_ in (0, 1) for c_ in consts) and \
+                all(rhs_ is not None and any((f.nodes[j].get('callee') or '').split('::')[-1] in ('find', 'rfind', 'find_first_of', 'find_last_of', 'find_first_not_of', 'find_last_not_of')
+                                             for j in f.walk(rhs_)) for _k, rhs_, _s in _ad26(f, next(iter(vs)))) if vs else False
+            if not searched:
+                ck.ob('C26.bound', 'C26.bound/position/%s#%d' % (short(f.q).split('::')[-1], i), False, f.loc(i),
+                      'position operand `%s` is not a guarded search result' % f.text(a[0])[:40])
+                continue
+            vd = next(iter(vs))
+
+            def g_np(fact, f=f, vd=vd):
+                h = holds(f, fact)
+                if not h:
+                    return False
+                x, rel, y = h
+                return rel == '!=' and ((declref(f, x) == vd and 'npos' in f.text(y)) or (declref(f, y) == vd and 'npos' in f.text(x)))
+            fails, _ = gate_check(f, [('positional string op', i)], [('search result != npos', g_np)])
+            ck.ob('C26.bound', 'C26.bound/position/%s#%d' % (short(f.q).split('::')[-1], i), not fails, f.loc(i),
+                  '%s runs only past a `!= npos` test of the search result it is positioned by' % f.text(i)[:50], fails[0][3] if fails else None)
+    ck.floor('C26.bound', 'string operations at a searched position in the relay server', npos_ops, 1)
 
     # ---- the protocol loop makes progress only by consuming input, and never feeds a closed session -------------------------------
     from sa.callgraph import CallGraph as _CG
@@ -223,3 +262,37 @@ def run(ck):
     ck.ob('C26.loop', 'C26.loop/line-handlers-do-not-close', not closes_, P.fn(R + 'handle_line').loc(),
           'no command handler reached from handle_line closes the session: process_protocol keeps feeding buffered lines to it afterwards'
           + ('' if not closes_ else ' — path %s' % ' -> '.join(short(x) for x in (G_.path(R + 'handle_line', R + 'close_session') or []))))
+
+    # ---- dispatch: the watcher is looked up for each event just before its callback runs ----------------------------------------
+    # (an earlier callback of the same batch may have closed this descriptor — and a new client may have been given the same
+    # number: a callback resolved before the batch started would then run the dead session's handler on the new client's watcher)
+    from sa.paths import loops as _loops26
+    from sa.flow import all_defs as _ad
+    run_f = P.fn(run_q)
+    inv = [i for i in run_f.walk() if run_f.nodes[i]['k'] == 'CXXOperatorCallExpr' and run_f.nodes[i].get('op') == '()' and
+           (run_f.nodes[i].get('callee') or '').startswith('std::function<void (int, unsigned int)>')]
+    ck.floor('C26.loop', 'callback invocations in EventLoop::run', len(inv), 1)
+    for i in inv:
+        obj = run_f.kids(i)[1]
+        its = [run_f.nodes[j]['d'] for j in run_f.walk(obj) if run_f.nodes[j]['k'] == 'DeclRefExpr' and run_f.nodes[j].get('dk') == 'Var']
+        via_member = any(run_f.nodes[j]['k'] == 'MemberExpr' and (run_f.nodes[j].get('m') or '').endswith('Watcher::callback') for j in run_f.walk(obj))
+        fresh = False
+        if via_member and len(its) == 1:
+            defs = _ad(run_f, its[0])
+            finds = [s_ for _k, rhs_, s_ in defs if rhs_ is not None and any((run_f.nodes[j].get('callee') or '').endswith('::find') and
+                     any((run_f.nodes[x].get('m') or '').endswith('EventLoop::watchers_') for x in run_f.walk(j)) for j in run_f.walk(rhs_))]
+            inner = lambda n: next((a for a in run_f.ancestors(n) if a in set(_loops26(run_f))), None)
+            fresh = len(defs) == 1 and len(finds) == 1 and inner(finds[0]) is not None and inner(finds[0]) == inner(i)
+        ck.ob('C26.loop', 'C26.loop/dispatch-looks-up-watcher-per-event', fresh, run_f.loc(i),
+              'the callback invoked for an event is the one found in watchers_ for that descriptor in the same loop iteration (not a copy resolved earlier)')
+
+    # ---- re-registration: the old listing is removed while the session still carries the old key -------------------------------
+    hr_ = P.fn(R + 'handle_register')
+    ck.touch(hr_)
+    rm_ = [i for i in hr_.walk() if hr_.nodes[i].get('callee') == R + 'remove_registration']
+    rekey = [i for i, m_, w_ in field_accesses(hr_) if w_ and m_.endswith(('ClientSession::peer_hex', 'ClientSession::peer_id'))]
+    ck.floor('C26.release', 'writes of the registration key in handle_register', len(rekey), 1)
+    late = must_precede(hr_, rekey, lambda e, s_=set(rm_): e in s_ or any(hr_.is_in(x, e) for x in s_) and hr_.nodes[e]['k'] == 'ExprWithCleanups') if rm_ else [(rekey[0], ['no remove_registration call'])]
+    ck.ob('C26.release', 'C26.release/unlist-before-rekey', not late, hr_.loc(late[0][0]) if late else hr_.loc(),
+          'handle_register calls remove_registration(session) before it overwrites session->peer_id / peer_hex (the listing is keyed by the old value)',
+          late[0][1] if late else None)
